@@ -702,13 +702,53 @@ def rule_offsets(ctx, f, cfg, cl):
     if len(appends) != 1:
         raise AnalysisError(f'{f.key}: expected one boundary append (to the returned offsets list) in the refill loop')
     a = appends[0].args[0]
-    base = None
-    if isinstance(a, ast.BinOp) and isinstance(a.op, ast.Add):
-        names = [norm(a.left), norm(a.right)]
-        if cur in names:
-            base = names[1 - names.index(cur)]
-    n = 1
-    ctx.check(base is not None, 'C13.OFFSETS', ctx.key(f, q.stmt(appends[0])),
+    # the base offset is the local the refill loop advances by the cursor; the value recorded is (base at the start of the
+    # iteration) + cursor, whether it is recorded before the advance (`append(base + cursor)`) or after it (`append(base)`)
+    from .. import paths as P
+    cands = [s_.target.id for s_ in walk_own(outer) if isinstance(s_, ast.AugAssign) and isinstance(s_.op, ast.Add)
+             and isinstance(s_.target, ast.Name) and norm(s_.value) == cur]
+    base = cands[0] if len(set(cands)) == 1 else None
+    n = 0
+    good, seen = base is not None, 0
+    for pth in P.paths(outer.body) if base else []:
+        evs = [e_ for st_, e_ in pth.events if st_ is q.stmt(appends[0])]
+        if not evs:
+            continue
+        seen += 1
+        v = P.subst(a, evs[0])
+        cur_now = norm(P.subst(ast.Name(id=cur, ctx=ast.Load()), evs[0]))
+        good = good and isinstance(v, ast.BinOp) and isinstance(v.op, ast.Add) and {norm(v.left), norm(v.right)} == {base, cur_now}
+    good = good and seen >= 1
+    # a boundary is recorded exactly for the refills that parsed at least one transaction (a refill that parsed none would
+    # record the same offset twice: an empty chunk for the reverse walk)
+    try:
+        cnt = _count_var(ctx, f, cl).target.id
+    except AnalysisError:
+        cnt = None
+    when_ok, w_seen = cnt is not None, 0
+    for pth in P.paths(outer.body) if cnt else []:
+        if pth.exit == 'raise':
+            continue
+        rec = any(st_ is q.stmt(appends[0]) for st_, _e in pth.events)
+        some = None
+        for t, pol, _n in pth.conds:
+            if isinstance(t, ast.Name) and t.id.split("'")[0] == cnt:
+                some = pol
+            elif isinstance(t, ast.expr):
+                vc = q.var_vs_const(t)
+                if vc and vc[0].split("'")[0] == cnt and (vc[1], vc[2]) in (('>', 0), ('>=', 1), ('!=', 0)):
+                    some = pol
+                elif vc and vc[0].split("'")[0] == cnt and (vc[1], vc[2]) in (('==', 0), ('<', 1), ('<=', 0)):
+                    some = not pol
+        w_seen += 1
+        when_ok = when_ok and some is not None and rec == some
+    ctx.check(when_ok and w_seen >= 2, 'C13.OFFSETS', ctx.key(f, q.stmt(appends[0]), 'recorded iff transactions were parsed'),
+              'a boundary is recorded exactly when the refill parsed at least one transaction',
+              'the boundary is not recorded exactly when the refill parsed at least one transaction (an empty refill records a '
+              'duplicate offset, or a parsed chunk records none)', loc=ctx.loc(f, appends[0]))
+    n += 1
+    n += 1
+    ctx.check(good, 'C13.OFFSETS', ctx.key(f, q.stmt(appends[0])),
               f'recorded boundary is {base} + {cur} (file offset of the first unparsed byte)',
               f'recorded boundary is not base + {cur}: {norm(a)}', loc=ctx.loc(f, appends[0]))
     if base is None:
@@ -735,13 +775,6 @@ def rule_offsets(ctx, f, cfg, cl):
               f'{base} is also modified by {[norm(e) for e in extra]}',
               witness=wit, loc=ctx.loc(f, drop))
     n += 1
-    # the advance must come after the boundary was recorded (the append uses the pre-advance base)
-    for s in adv_ok:
-        p = cfg.find_path([cfg.node(s)], {cfg.node(q.stmt(appends[0]))}, avoiding={h})
-        ctx.check(p is None, 'C13.OFFSETS', ctx.key(f, s, 'after append'),
-                  'boundary recorded before the base moves', 'boundary recorded after the base already moved',
-                  witness=cfg.describe_path(p) if p else None, loc=ctx.loc(f, s))
-        n += 1
     # COUNT: return only when the remaining announced count is zero
     n += rule_count_offsets(ctx, f, cfg, cl)
     return n
